@@ -494,6 +494,9 @@ func (d *c16Deploy) runKeySwitch(ct *rlwe.Ciphertext, toZero bool) bool {
 		ctx.Fail("metadata", "KeySwitch|output-metadata", "output metadata differs from the input's")
 		return false
 	}
+	if !outputOwnsMetadata(ctx, "KeySwitch", in, out) {
+		return false
+	}
 	got := decryptRaw(params, out, target)
 	bound := new(big.Int).Mul(d.shareB, big.NewInt(int64(d.n)))
 	ctx.Count("oracle.message-model", 1)
@@ -504,6 +507,28 @@ func (d *c16Deploy) runKeySwitch(ct *rlwe.Ciphertext, toZero bool) bool {
 	ctx.Event("%s level=%d n=%d sigma=%g", what, level, d.n, d.sigma)
 	if m := maxAbsDiff(got, want, ringQ.ModulusAtLevel[level]); m.Cmp(bound) > 0 {
 		ctx.Fail("message", what+"|residual", "after the collective key switch (level %d, %d parties) the target key decrypts to something that differs from the original plaintext by %s > n*bound = %s", level, d.n, m.String(), bound.String())
+		return false
+	}
+	return true
+}
+
+// outputOwnsMetadata: the result of a protocol is a ciphertext of its own. The deployment goes on using the input
+// object (another encryption into it, a rescaling in place): that must not reach the output. Checked by changing
+// the input's metadata after the call and restoring it.
+func outputOwnsMetadata(ctx *core.RunCtx, name string, in, out *rlwe.Ciphertext) bool {
+	if in == out || in.MetaData == nil || out.MetaData == nil {
+		return true
+	}
+	ctx.Count("oracle.output-owns-metadata", 1)
+	before := *out.MetaData.CopyNew()
+	saved := *in.MetaData
+	in.Scale = in.Scale.Mul(rlwe.NewScale(3))
+	in.LogDimensions.Cols++
+	in.IsBatched = !in.IsBatched
+	same := out.MetaData.Equal(&before)
+	*in.MetaData = saved
+	if !same {
+		ctx.Fail("aliasing", name+"|output-shares-metadata-with-input", "%s into a distinct ciphertext: changing the scale and dimensions of the input afterwards (as its next use does) changed those of the output - they share one metadata object", name)
 		return false
 	}
 	return true
@@ -628,6 +653,9 @@ func (d *c16Deploy) runPublicKeySwitch(ct *rlwe.Ciphertext) bool {
 	}
 	if out.Level() != level || !out.MetaData.Equal(ct.MetaData) {
 		ctx.Fail("metadata", "PublicKeySwitch|output", "output level %d (input %d) or metadata differ from the input's", out.Level(), level)
+		return false
+	}
+	if !outputOwnsMetadata(ctx, "PublicKeySwitch", in, out) {
 		return false
 	}
 	got := decryptRaw(params, out, skOut)
@@ -1201,6 +1229,9 @@ func (sc *c16BGV) runRefresh(d *c16Deploy, ct *rlwe.Ciphertext, m []uint64, inNo
 		return false
 	}
 	ctx.Event("%s ct-level=%d e2s-level=%d out-level=%d n=%d f=%v exact=%v", name, level, minLevel, outLevel, d.n, lin, exact)
+	if !outputOwnsMetadata(ctx, name, in, out) {
+		return false
+	}
 	if out.Level() != outLevel {
 		ctx.Fail("metadata", name+"|output-level", "output is at level %d, requested %d", out.Level(), outLevel)
 		return false
